@@ -107,6 +107,25 @@ struct DerivedScope {
     ~DerivedScope() { Tracer::get().derivedScope = prev; }
 };
 
+// Read-size schedule for Interpret::interpPipe: OPENSMT_VERIF_CHUNKS="3,1,7" caps successive read() sizes (cyclic)
+inline int chunkCap(int wanted) {
+    static std::vector<int> schedule = [] {
+        std::vector<int> v;
+        char const * p = std::getenv("OPENSMT_VERIF_CHUNKS");
+        while (p and *p) {
+            int n = std::atoi(p);
+            if (n > 0) { v.push_back(n); }
+            while (*p and *p != ',') { ++p; }
+            if (*p == ',') { ++p; }
+        }
+        return v;
+    }();
+    static std::size_t next = 0;
+    if (schedule.empty()) { return wanted; }
+    int cap = schedule[next++ % schedule.size()];
+    return cap < wanted ? cap : wanted;
+}
+
 // Counter of arbitrary-precision allocations (C24's non-triviality rule); relaxed, never read by the solver
 inline std::atomic<unsigned long> & bignumAllocs() {
     static std::atomic<unsigned long> c{0};
